@@ -3,6 +3,7 @@
 // element life-cycle ledger (C05).  Allocation failures and failing element
 // constructors are injected into the operation they are attached to.
 #include "worlds/common.hpp"
+#include <functional>
 
 using namespace sim;
 using namespace mpt;
@@ -54,6 +55,26 @@ static const type_traits OTHER16(16, elem_fini, elem_init); // same size and fin
 static const type_traits *tracked_traits(size_t es) { return es == 8 ? &TRAITS8 : es == 24 ? &TRAITS24 : es == 40 ? &TRAITS40 : &TRAITS16; }
 
 // C++ element with the same ledger: used by the container templates (unique_array, typed_array, map)
+// values of config items: metatypes that count the references elements hold on them
+struct CObj : public metatype {
+	long refs = 1; int nr;
+	explicit CObj(int n) : nr(n) { }
+	int convert(type_t t, void *ptr) override { if (t == TypeMetaPtr) { if (ptr) *(metatype **) ptr = this; return 0; } return BadType; }
+	void unref() override { Harness h; if (--refs <= 0) pend("double-destroy", "an element released a reference on value object %d it did not hold", nr); }
+	uintptr_t addref() override { Harness h; return (uintptr_t) ++refs; }
+	metatype *clone() const override { return 0; }
+};
+// active commands: finalising one calls its function with a null event, exactly once
+// a config item as the C side lays it out (the C++ class hides the members behind its bases)
+struct CItem { buffer *elements; metatype *value; identifier id; };
+static std::set<uint32_t> g_cmd_live;
+static int cmd_token_fn(void *arg, void *ev) {
+	Harness h;
+	if (ev) return 0;
+	uint32_t t = (uint32_t) (uintptr_t) arg;
+	if (!g_cmd_live.erase(t)) pend("double-destroy", "command %u was finalised twice (or never was an element)", t);
+	return 0;
+}
 struct Tracked {
 	uint32_t magic, id;
 	Tracked() { reg(0); }
@@ -98,9 +119,9 @@ struct ArraysWorld : World {
 		int kind = sim::g_mode == 1 ? (int) r.below(2) : sim::g_mode == 2 ? K_TRACKED : (int) r.below(3);
 		if (r.chance(1, 4)) kind = sim::g_mode == 1 ? (r.chance(2, 3) ? K_CXX_BYTES : K_CXX_TRACKED) : sim::g_mode == 2 ? K_CXX_TRACKED : (r.chance(1, 2) ? K_CXX_BYTES : K_CXX_TRACKED);   // the typed containers carry C04's value semantics as well
 		p.set("kind", kind);
-		if (sim::g_mode != 1 && r.chance(1, 6)) {
+		if (sim::g_mode != 1 && r.chance(1, 5)) {
 			// buffers of the library's own managed element types: identifiers (inline / allocated names), arrays (elements hold buffer references)
-			p.set("kind", K_BUILTIN); p.set("btype", r.below(2)); p.set("nh", 3);
+			p.set("kind", K_BUILTIN); p.set("btype", r.below(4)); p.set("nh", 3);
 			int nops = (int) r.range(1, tier ? 80 : 40); bool allocf = r.chance(1, 3);
 			for (int i = 0; i < nops; ++i) {
 				Op op; static const int ops[] = {OP_B_SET, OP_B_SET, OP_B_SET, OP_B_INSERT, OP_B_INSERT, OP_B_CLONE, OP_B_CLONE, OP_B_RELEASE, OP_B_WRITE, OP_B_WRITE, OP_B_CUT};
@@ -591,39 +612,84 @@ struct ArraysWorld : World {
 	// Oracle: every handle reads the names / inner buffers a value-semantics vector holds; what elements own is visible to the
 	// ledger and AddressSanitizer (copied twice = double free, never finalised = block alive at the end, finalised early = use after free).
 	void exec_builtin(const Plan &p, Log &log, Stats &st) {
-		const int bt = (int) p.get("btype") & 1;
-		const type_traits *tr = bt ? mpt_array_traits() : mpt_identifier_traits();
+		const int bt = (int) p.get("btype") & 3;
+		const type_traits *tr = bt == 1 ? mpt_array_traits() : bt == 2 ? mpt_config_item_traits() : bt == 3 ? mpt_command_traits() : mpt_identifier_traits();
 		const size_t es = tr->size;
+		if (bt == 2 && es != sizeof(CItem)) fail("setup", "config item is %zu bytes, the harness' view of it %zu", es, sizeof(CItem));
+		static const char *const btname[] = {"identifier", "array", "config item", "command"};
+		CObj cobj0(0), cobj1(1), cobj2(2); CObj *cobj[3] = {&cobj0, &cobj1, &cobj2};
+		g_cmd_live.clear();
+		auto item_obj = [&](uint32_t v) -> CObj * { return (v && (v % 4)) ? cobj[v % 3] : 0; };
+		bool fault_seen = false;      // after an allocation fault an item may have lost its name (the copy constructor ignores that): names and values are no longer compared, ownership still is
 		CArr B[3] = {{0}, {0}, {0}}; std::vector<uint32_t> MB[3];
 		struct Cl { CArr *b; ~Cl() { for (int i = 0; i < 3; ++i) b[i].buf = 0; } } cl{B};
 		// inner buffers for the array element type: the harness holds one reference to each
 		CArr inner[4] = {{0}, {0}, {0}, {0}};
-		if (bt) for (int k = 0; k < 4; ++k) { Sut s; if (!mpt_array_append(AR(inner[k]), 4 + k, 0)) fail("setup", "inner buffer"); }
+		if (bt == 1) for (int k = 0; k < 4; ++k) { Sut s; if (!mpt_array_append(AR(inner[k]), 4 + k, 0)) fail("setup", "inner buffer"); }
 		struct Ci { CArr *b; ~Ci() { for (int i = 0; i < 4; ++i) b[i].buf = 0; } } ci{inner};
-		log.ev("arrays kind=builtin elements=%s (element size %zu)", bt ? "array" : "identifier", es);
-		st.hit(bt ? "kind:builtin_array_elements" : "kind:builtin_identifier_elements");
+		log.ev("arrays kind=builtin elements=%s (element size %zu)", btname[bt], es);
+		st.hit(bt == 1 ? "kind:builtin_array_elements" : bt == 2 ? "kind:builtin_config_item_elements" : bt == 3 ? "kind:builtin_command_elements" : "kind:builtin_identifier_elements");
 		uint32_t next = 1;
 		auto name_of = [&](uint32_t v) -> std::string { if (!v) return ""; char b[64]; if (v & 1) snprintf(b, sizeof b, "n%u", v); else snprintf(b, sizeof b, "a-long-name-that-needs-its-own-allocation-%u", v); return b; };
 		// a value: identifiers 1.. (odd = inline name, even = allocated name); arrays 1..4 = inner buffer, 0 = empty element in both
-		auto fresh_val = [&]() -> uint32_t { return bt ? 1 + (next++ % 4) : next++; };
-		auto make = [&](uint8_t *e, uint32_t v) {      // harness-built source element
-			if (bt) { array *a = (array *) e; *reinterpret_cast<buffer **>(a) = 0; if (v) { Sut s; mpt_array_clone(a, AR(inner[v - 1])); } }
-			else { identifier *id = (identifier *) e; mpt_identifier_init(id, es); if (v) { std::string n = name_of(v); Sut s; if (!mpt_identifier_set(id, n.c_str(), (int) n.size())) fail("setup", "source identifier"); } }
-		};
-		auto assign = [&](uint8_t *e, uint32_t v) {    // overwrite a live element in place, the way a user of the private buffer does
-			if (bt) { Sut s; mpt_array_clone((array *) e, v ? AR(inner[v - 1]) : 0); }
-			else { std::string n = name_of(v); Sut s; mpt_identifier_set((identifier *) e, v ? n.c_str() : 0, (int) n.size()); }
-		};
-		auto read = [&](const uint8_t *e, const char *after, int h, size_t i) -> uint32_t {
-			if (bt) { buffer *b = *reinterpret_cast<buffer * const *>(e); if (!b) return 0; for (int k = 0; k < 4; ++k) if (inner[k].buf == b) return (uint32_t) k + 1;
-				fail("wrong-content", "after %s: element %zu of handle %d refers to a buffer nobody put there", after, i, h); }
-			const identifier *id = (const identifier *) e; const char *d = (const char *) mpt_identifier_data(id); size_t n = id->_len;
+		// config items: value = name (as for identifiers) + a counted value object chosen by the number; commands: 0 = inactive, otherwise an active command with that token
+		auto fresh_val = [&]() -> uint32_t { return bt == 1 ? 1 + (next++ % 4) : next++; };
+		auto parse_name = [&](const identifier *id, const char *after, int h, size_t i) -> uint32_t {
+			const char *d = (const char *) mpt_identifier_data(id); size_t n = id->_len;
 			if (!n) return 0;
 			std::string got(d, n); while (!got.empty() && !got.back()) got.pop_back();      // the stored length includes the terminator
 			if (got.empty()) return 0;
 			unsigned v = 0; if (sscanf(got.c_str(), "n%u", &v) == 1 && name_of(v) == got) return v; if (sscanf(got.c_str(), "a-long-name-that-needs-its-own-allocation-%u", &v) == 1 && name_of(v) == got) return v;
 			fail("wrong-content", "after %s: element %zu of handle %d carries the name '%s' nobody gave it", after, i, h, got.substr(0, 60).c_str());
 			return 0;
+		};
+		auto make = [&](uint8_t *e, uint32_t v) {      // harness-built source element
+			if (bt == 1) { array *a = (array *) e; *reinterpret_cast<buffer **>(a) = 0; if (v) { Sut s; mpt_array_clone(a, AR(inner[v - 1])); } }
+			else if (bt == 2) { CItem *it = (CItem *) e; { Sut s; tr->init(e, 0); } if (v) { std::string n = name_of(v); Sut s; if (!mpt_identifier_set(&it->id, n.c_str(), (int) n.size())) fail("setup", "source item name"); CObj *o = item_obj(v); if (o) { o->addref(); it->value = o; } } }
+			else if (bt == 3) { command *c = (command *) e; memset((void *) c, 0, sizeof(*c)); if (v) { c->id = v; c->cmd = cmd_token_fn; c->arg = (void *) (uintptr_t) v; g_cmd_live.insert(v); } }
+			else { identifier *id = (identifier *) e; mpt_identifier_init(id, es); if (v) { std::string n = name_of(v); Sut s; if (!mpt_identifier_set(id, n.c_str(), (int) n.size())) fail("setup", "source identifier"); } }
+		};
+		auto assign = [&](uint8_t *e, uint32_t v) {    // overwrite a live element in place, the way a user of the private buffer does
+			if (bt == 1) { Sut s; mpt_array_clone((array *) e, v ? AR(inner[v - 1]) : 0); }
+			else if (bt == 2) { CItem *it = (CItem *) e; std::string n = name_of(v); Sut s; mpt_identifier_set(&it->id, v ? n.c_str() : 0, (int) n.size());
+				CObj *o = item_obj(v); if (o) o->addref(); if (it->value) it->value->unref(); it->value = o;
+				// every fifth item also gets (or loses) a sub-item that holds a value of its own: finalising the item must finalise it too
+				if (v % 5 == 0) { if (it->elements) mpt_array_clone((array *) &it->elements, 0); else { uint8_t child[64]; tr->init(child, 0); ((CItem *) child)->value = cobj[v % 3]; cobj[v % 3]->addref(); mpt_array_set((array *) &it->elements, tr, es, child, 0); tr->fini(child); } } }
+			else if (bt == 3) { command *c = (command *) e; { Sut s; tr->fini(e); } memset((void *) c, 0, sizeof(*c)); if (v) { c->id = v; c->cmd = cmd_token_fn; c->arg = (void *) (uintptr_t) v; g_cmd_live.insert(v); } }
+			else { std::string n = name_of(v); Sut s; mpt_identifier_set((identifier *) e, v ? n.c_str() : 0, (int) n.size()); }
+		};
+		auto read = [&](const uint8_t *e, const char *after, int h, size_t i) -> uint32_t {
+			if (bt == 1) { buffer *b = *reinterpret_cast<buffer * const *>(e); if (!b) return 0; for (int k = 0; k < 4; ++k) if (inner[k].buf == b) return (uint32_t) k + 1;
+				fail("wrong-content", "after %s: element %zu of handle %d refers to a buffer nobody put there", after, i, h); }
+			if (bt == 2) { const CItem *it = (const CItem *) e; uint32_t v = parse_name(&it->id, after, h, i);
+				if (v && it->value != item_obj(v)) { if (!fault_seen) fail("wrong-content", "after %s: item %zu of handle %d is named for value %u but holds another value object", after, i, h, v); }
+				if (!v && it->value && !fault_seen) fail("wrong-content", "after %s: unnamed item %zu of handle %d holds a value object", after, i, h);
+				return v; }
+			if (bt == 3) { const command *c = (const command *) e; if (!c->cmd) return 0; if (c->cmd != cmd_token_fn) fail("wrong-content", "after %s: command %zu of handle %d has a function nobody set", after, i, h);
+				uint32_t t = (uint32_t) (uintptr_t) c->arg; if (c->id != t) fail("wrong-content", "after %s: command %zu of handle %d has id %lu and argument %u", after, i, h, (unsigned long) c->id, t); return t; }
+			return parse_name((const identifier *) e, after, h, i);
+		};
+		// ownership: what the elements of all (distinct) buffers hold is exactly what the counted objects and the set of active commands say
+		std::function<void(const buffer *, long *)> count_items = [&](const buffer *b, long *cnt) {
+			size_t n = b ? b->_used / es : 0;
+			for (size_t i = 0; i < n; ++i) { const CItem *it = (const CItem *) ((const uint8_t *) (b + 1) + i * es);
+				for (int k = 0; k < 3; ++k) if (it->value == cobj[k]) ++cnt[k];
+				count_items(it->elements, cnt); }
+		};
+		auto audit = [&](const char *after) {
+			check_pending();
+			std::set<const buffer *> seen;
+			if (bt == 2) {
+				long cnt[3] = {0, 0, 0};
+				for (int h = 0; h < 3; ++h) if (B[h].buf && seen.insert(B[h].buf).second) count_items(B[h].buf, cnt);
+				for (int k = 0; k < 3; ++k) if (cobj[k]->refs != 1 + cnt[k]) fail(cobj[k]->refs > 1 + cnt[k] ? "element-leak" : "double-destroy", "after %s: value object %d counts %ld references, the items of all buffers hold %ld (+1 for the harness)", after, k, cobj[k]->refs, cnt[k]);
+			}
+			if (bt == 3) {
+				std::multiset<uint32_t> held;
+				for (int h = 0; h < 3; ++h) if (B[h].buf && seen.insert(B[h].buf).second) { size_t n = B[h].buf->_used / es; for (size_t i = 0; i < n; ++i) { const command *c = (const command *) ((const uint8_t *) (B[h].buf + 1) + i * es); if (c->cmd) held.insert((uint32_t) (uintptr_t) c->arg); } }
+				for (uint32_t t : held) { if (held.count(t) > 1) fail("double-destroy", "after %s: active command %u is held by %zu elements (it would be finalised once per element)", after, t, held.count(t)); if (!g_cmd_live.count(t)) fail("double-destroy", "after %s: command %u is still an element but was finalised already", after, t); }
+				for (uint32_t t : g_cmd_live) if (!held.count(t)) fail("element-leak", "after %s: command %u is in no buffer any more but was never finalised", after, t);
+			}
 		};
 		auto verifyB = [&](const char *after, int operated) {
 			for (int h = 0; h < 3; ++h) {
@@ -640,6 +706,13 @@ struct ArraysWorld : World {
 			size_t pos = std::min<size_t>((size_t) (op.b & 0xff) % 12, usedn + 2), n = (size_t) ((op.b >> 8) & 0xff) % 5;
 			uint64_t failn = op.fault == FL_ALLOC ? (uint64_t) std::max<int64_t>(op.fa, 1) : 0, fired = 0; int outcome = 0;
 			st.hit(std::string("op:") + OPS[op.kind]);
+			// an active command cannot be copied (its constructor refuses): whatever needs a private copy of a shared buffer that holds one is refused, legitimately
+			const bool was_shared_b = B[h].buf && (B[h].buf->get_flags() & BufferShared);
+			auto any_active = [&](const std::vector<uint32_t> &v) { for (uint32_t x : v) if (x) return true; return false; };
+			// (a private copy of such a buffer holds default = inactive commands in their place: the values of that handle are re-read, ownership is still audited)
+			bool loose = bt == 3 && was_shared_b && any_active(MB[h]);
+			if (loose) st.hit("probe:shared_active_commands_touched");
+			auto reread = [&](const char *why) { if (fired) fault_seen = true; buffer *b = B[h].buf; size_t k = b ? b->_used / es : 0; MB[h].clear(); for (size_t i = 0; i < k; ++i) MB[h].push_back(read((const uint8_t *) (b + 1) + i * es, why, h, i)); };
 			switch (op.kind) {
 			case OP_B_CLONE: { int rc; { Sut s(failn); rc = mpt_array_clone(AR(B[h]), AR(B[h2])); fired = g.fired; } log.ev("B_CLONE %d <- %d -> %d", h, h2, rc); if (rc >= 0) { MB[h] = MB[h2]; outcome = 1; } break; }
 			case OP_B_RELEASE: { { Sut s; mpt_array_clone(AR(B[h]), 0); } MB[h].clear(); log.ev("B_RELEASE %d", h); outcome = 1; break; }
@@ -650,11 +723,13 @@ struct ArraysWorld : World {
 				void *r; { Sut s(failn); r = mpt_array_set(AR(B[h]), tr, n * es, dflt ? 0 : src.p, (long) pos); fired = g.fired; }
 				for (size_t i = 0; i < n; ++i) { Sut s; tr->fini(src.p + i * es); }
 				log.ev("B_SET %d pos=%zu n=%zu%s%s -> %s", h, pos, n, dflt ? " default" : "", fired ? " allocfail" : "", r ? "ok" : "null");
-				if (r && !fired) { if (pos + n > MB[h].size()) MB[h].resize(pos + n, 0); for (size_t i = 0; i < n; ++i) MB[h][pos + i] = vals[i]; outcome = 1; }
-				else if (!fired) fail("refused-valid", "set of %zu %s elements at %zu refused without allocation fault", n, bt ? "array" : "identifier", pos);
+				if (bt == 3 && any_active(vals)) { loose = true; st.hit("probe:active_command_copied_as_default"); }      // "if element copy is unsuccessful, default element value is used"
+				if (loose) { }
+				else if (r && !fired) { if (pos + n > MB[h].size()) MB[h].resize(pos + n, 0); for (size_t i = 0; i < n; ++i) MB[h][pos + i] = vals[i]; outcome = 1; }
+				else if (!fired) fail("refused-valid", "set of %zu %s elements at %zu refused without allocation fault", n, btname[bt], pos);
 				else {
 					// a failed set may have grown the handle with default elements or applied a prefix; re-read what is there
-					buffer *b = B[h].buf; size_t k = b ? b->_used / es : 0; MB[h].clear(); for (size_t i = 0; i < k; ++i) MB[h].push_back(read((const uint8_t *) (b + 1) + i * es, "failed set", h, i));
+					reread("failed set");
 				}
 				break;
 			}
@@ -666,10 +741,12 @@ struct ArraysWorld : World {
 					if (pos > MB[h].size()) MB[h].resize(pos, 0);
 					MB[h].insert(MB[h].begin() + (ptrdiff_t) pos, n, 0);
 					// the gap is raw space for the caller to construct elements in (what precedes it was default-constructed by the library)
-					for (size_t i = 0; i < n; ++i) { uint32_t v = fresh_val(); Block tmp(es, 0); make(tmp.p, v); int ir; { Sut s; ir = tr->init((uint8_t *) r + i * es, tmp.p); tr->fini(tmp.p); }
-						if (ir < 0) fail("refused-valid", "copy construction of a %s element reports failure (%d)", bt ? "array" : "identifier", ir); MB[h][pos + i] = v; }
+					for (size_t i = 0; i < n; ++i) { uint32_t v = fresh_val();
+						if (bt == 3) { make((uint8_t *) r + i * es, v); MB[h][pos + i] = v; continue; }      // a command is activated in place (as mpt_command_reserve's callers do)
+						Block tmp(es, 0); make(tmp.p, v); int ir; { Sut s; ir = tr->init((uint8_t *) r + i * es, tmp.p); tr->fini(tmp.p); }
+						if (ir < 0) fail("refused-valid", "copy construction of a %s element reports failure (%d)", btname[bt], ir); MB[h][pos + i] = v; }
 					outcome = 1;
-				} else if (!fired) fail("refused-valid", "insert of %zu elements at %zu refused without allocation fault", n, pos);
+				} else if (!fired && !loose) fail("refused-valid", "insert of %zu elements at %zu refused without allocation fault", n, pos);
 				break;
 			}
 			case OP_B_WRITE: {
@@ -682,13 +759,13 @@ struct ArraysWorld : World {
 					if (pos + n > MB[h].size()) MB[h].resize(pos + n, 0);
 					for (size_t i = 0; i < n; ++i) { uint32_t v = fresh_val(); assign((uint8_t *) r + i * es, v); MB[h][pos + i] = v; }
 					outcome = 1;
-				} else if (!fired) fail("refused-valid", "slice of %zu elements at %zu refused without allocation fault", n, pos);
+				} else if (!fired && !loose) fail("refused-valid", "slice of %zu elements at %zu refused without allocation fault", n, pos);
 				break;
 			}
 			case OP_B_CUT: {
 				if (!B[h].buf) break;
 				buffer *b; { Sut s(failn); b = mpt_array_reserve(AR(B[h]), B[h].buf->_used, tr); fired = g.fired; }
-				if (!b) { if (!fired) fail("refused-valid", "reserve of the current size refused without allocation fault"); break; }
+				if (!b) { if (!fired && !loose) fail("refused-valid", "reserve of the current size refused without allocation fault"); break; }
 				size_t ub = b->_used / es; bool valid = n ? (pos <= ub && n <= ub - pos) : pos <= ub;
 				ssize_t rc; { Sut s; rc = mpt_buffer_cut(b, pos * es, n * es); }
 				log.ev("B_CUT %d pos=%zu n=%zu of %zu -> %zd", h, pos, n, ub, rc);
@@ -700,14 +777,17 @@ struct ArraysWorld : World {
 			}
 			if (fired) {
 				// an element whose copy could not be made is replaced by a default one or the operation stops early: values are not judged, ownership still is
-				st.hit("fault:allocfail");
-				buffer *b = B[h].buf; size_t k = b ? b->_used / es : 0; MB[h].clear(); for (size_t i = 0; i < k; ++i) MB[h].push_back(read((const uint8_t *) (b + 1) + i * es, "faulted operation", h, i));
+				st.hit("fault:allocfail"); fault_seen = true;
+				reread("faulted operation");
 			}
+			else if (loose) reread("an operation that had to copy active commands");
 			st.state(300 + op.kind, bt * 16 + (fired ? 8 : 0) + (int) std::min<size_t>(usedn, 3) * 2 + (B[h].buf && (B[h].buf->get_flags() & BufferShared) ? 1 : 0), outcome);
 			verifyB(OPS[op.kind], h);
+			audit(OPS[op.kind]);
 		}
 		for (int h = 0; h < 3; ++h) { Sut s; mpt_array_clone(AR(B[h]), 0); }
-		if (bt) {
+		audit("the last handle was released");
+		if (bt == 1) {
 			// every element reference is gone: the harness holds the only reference to each inner buffer
 			for (int k = 0; k < 4; ++k) if (inner[k].buf->get_flags() & BufferShared) fail("never-destroyed", "inner buffer %d is still shared after the last array of arrays went away (an element was not finalised)", k);
 			for (int k = 0; k < 4; ++k) { Sut s; mpt_array_clone(AR(inner[k]), 0); }
